@@ -5,10 +5,13 @@
    grant   {id, t}          the scheduler granted thread t the turn: t runs -- with the ACTIONS of Balance, several TLC
                             steps per line -- until it passes a pause point or finishes
    end     {id, rows}       all threads have finished; rows[t] = what thread t's query returned
-   serial  {id, prog, rows, sv} a query run alone: rows must be SerialRows(prog), the IN-subquery values SubResult(prog)
-   hom     {id, f, sc, pos, fpos, sum_pos, sum_f, f_sum, groups, op, prices}
+   serial  {id, prog, rows, sv, lim} a query run alone: rows must be SerialRows(prog), the IN-subquery values
+                            SubResult(prog); lim > 0: the statement carried LIMIT lim -- the first lim of those rows
+   hom     {id, f, sc, pos, fpos, sum_pos, sum_f, f_sum, groups, op, prices, lim, lgroups}
                             one aggregate query family: per-row positions and f(position), sum(position),
-                            sum(f(position)), f(sum(position)), per-group sums; judged with the Inventory operators
+                            sum(f(position)), f(sum(position)), per-group sums; judged with the Inventory operators;
+                            lim > 0: lgroups = what the grouped statement returned with LIMIT lim (no ORDER BY): that
+                            many of the groups (which ones is not C12's business), each with the sums of ALL its rows
 
    A line the specification does not explain is reported as a JSON verdict and the run goes on (total verdicts);
    the last step prints a "consumed" verdict with the number of lines read, which the driver requires. *)
@@ -73,7 +76,15 @@ HomClauses(e) ==
               /\ InvOfSeq(e.groups[g][2]) = SumIdx(e.pos, Range(e.groups[g][1]))
               /\ InvOfSeq(e.groups[g][3]) = SumIdx(e.fpos, Range(e.groups[g][1]))
               /\ InvOfSeq(e.groups[g][4]) = InvOfSeq(e.groups[g][3]),
-          e.groups = <<>> \/ (AddUp(e.groups, 2) = total /\ AddUp(e.groups, 3) = ftotal)   \* partition additivity
+          e.groups = <<>> \/ (AddUp(e.groups, 2) = total /\ AddUp(e.groups, 3) = ftotal),  \* partition additivity
+          e.lim = 0 \/                                 \* LIMIT: that many groups, distinct, each one complete
+              /\ Len(e.lgroups) = (IF e.lim <= Len(e.groups) THEN e.lim ELSE Len(e.groups))
+              /\ \A g \in 1..Len(e.lgroups) :
+                    /\ \E h \in 1..Len(e.groups) : Range(e.groups[h][1]) = Range(e.lgroups[g][1])
+                    /\ \A h \in 1..Len(e.lgroups) : h # g => Range(e.lgroups[h][1]) # Range(e.lgroups[g][1])
+                    /\ InvOfSeq(e.lgroups[g][2]) = SumIdx(e.pos, Range(e.lgroups[g][1]))
+                    /\ InvOfSeq(e.lgroups[g][3]) = SumIdx(e.fpos, Range(e.lgroups[g][1]))
+                    /\ InvOfSeq(e.lgroups[g][4]) = InvOfSeq(e.lgroups[g][3])
        >>
 FirstFalse(cl) == LET B == {i \in 1..Len(cl) : ~cl[i]} IN IF B = {} THEN 0 ELSE CHOOSE i \in B : \A j \in B : i <= j
 
@@ -114,7 +125,8 @@ TNext ==
                               /\ nbad' = nbad + 1
                          ELSE UNCHANGED nbad
          [] e.k = "serial" ->
-              LET rows == SerialRows(e.prog)
+              LET all == SerialRows(e.prog)
+                  rows == IF e.lim = 0 \/ e.lim >= Len(all) THEN all ELSE SubSeq(all, 1, e.lim)
               IN /\ l' = l + 1 /\ Stay /\ UNCHANGED dead
                  /\ IF ~RowsMatch(rows, e.rows)
                     THEN Reject(e, "rows differ from SerialRows", 1, FirstBad(rows, e.rows)) /\ nbad' = nbad + 1
